@@ -312,7 +312,14 @@ def linearize_measure_contents(part, start, end, state):
 
     for i in range(1, len(splits)):
         contents.extend(
-            linearize_segment_contents(part, splits[i - 1], splits[i], state)
+            linearize_segment_contents(
+                part,
+                splits[i - 1],
+                splits[i],
+                state,
+                # the next segment (with other divisions) starts at the end of this one
+                restore_position=i < len(splits) - 1,
+            )
         )
 
     return contents
@@ -419,7 +426,7 @@ def remove_voice_polyphony(notes_by_voice):
 #                 part.add(rest, note.end.t, end.t)
 
 
-def linearize_segment_contents(part, start, end, state):
+def linearize_segment_contents(part, start, end, state, restore_position=False):
     """
     Determine the document order of events starting between `start` (inclusive)
     and `end` (exlusive).
@@ -495,7 +502,9 @@ def linearize_segment_contents(part, start, end, state):
 
     other_e = harmony_e + attributes_e + directions_e + barline_e + prints_e
 
-    contents = merge_measure_contents(voices_e, other_e, start.t)
+    contents = merge_measure_contents(
+        voices_e, other_e, start.t, end.t if restore_position else None
+    )
 
     return contents
 
@@ -662,7 +671,7 @@ def merge_with_voice(notes, other, measure_start):
     return result, fb_cost
 
 
-def merge_measure_contents(notes, other, measure_start):
+def merge_measure_contents(notes, other, measure_start, segment_end=None):
     merged = {}
     # cost (measured as the total forward/backup jumps needed to merge) all
     # elements in `other` into each voice
@@ -718,6 +727,14 @@ def merge_measure_contents(notes, other, measure_start):
         # update current position
         if elements:
             pos = elements[-1][0] + (elements[-1][1] or 0)
+
+    if segment_end is not None and pos != segment_end:
+        # move to the end of the segment, where the next segment starts
+        tag = "forward" if segment_end > pos else "backup"
+        e = etree.Element(tag)
+        ee = etree.SubElement(e, "duration")
+        ee.text = "{:d}".format(abs(int(segment_end - pos)))
+        result.append(e)
 
     return result
 
